@@ -1279,64 +1279,24 @@ class _TriangularDynamicsService(_LibrationDynamicsService):
         RuntimeError
             If the expected number of eigenvalues or frequency groups are not found.
         """
-        J_full = self._J_hess_H2()
-        eigvals = np.linalg.eigvals(J_full)
+        # The planar block of J*Hess(H2) has the characteristic polynomial
+        # s^4 + s^2 + (27/16 - a^2) = 0 and the vertical block s^2 + 1 = 0, so
+        # the three frequencies are available in closed form.  A numerical
+        # eigen-solver loses the purely imaginary structure when omega_1 -> 1
+        # (nearly defective matrix for mu below ~1e-6) and the point was then
+        # rejected although it is linearly stable.
+        a = self.a
+        c = 27.0 / 16.0 - a * a
+        disc = 1.0 - 4.0 * c
+        if not (c > 0.0 and disc > 0.0):
+            raise RuntimeError(
+                "Expected 6 eigenvalues (+-3 frequencies): the planar motion has no "
+                "two distinct real frequencies for this mass ratio."
+            )
 
-        imag_eigs = eigvals[np.abs(eigvals.real) < 1e-12]
-        omegas_with_sign = imag_eigs.imag  # Keep the signs
-
-        omegas_unique = []
-        for omega in omegas_with_sign:
-            if not any(np.isclose(omega, existing, atol=1e-12) for existing in omegas_unique):
-                omegas_unique.append(omega)
-
-        if len(omegas_unique) != 6:
-            raise RuntimeError(f"Expected 6 eigenvalues (+-3 frequencies), got {len(omegas_unique)}.")
-
-        freq_groups = {}
-        for omega in omegas_unique:
-            abs_omega = abs(omega)
-            found_group = False
-            for key in freq_groups:
-                if np.isclose(abs_omega, key, rtol=1e-10):
-                    freq_groups[key].append(omega)
-                    found_group = True
-                    break
-            if not found_group:
-                freq_groups[abs_omega] = [omega]
-        
-        vertical_group_key = min(freq_groups.keys(), key=lambda x: abs(x - 1.0))
-        if not np.isclose(vertical_group_key, 1.0, rtol=1e-2):
-            raise RuntimeError(f"No frequency group found near 1.0, closest is {vertical_group_key}")
-        
-        omega_z = vertical_group_key
-
-        planar_omegas = []
-        for key, omegas_list in freq_groups.items():
-            if not np.isclose(key, vertical_group_key, rtol=1e-10):
-                planar_omegas.extend(omegas_list)
-        
-        planar_freq_groups = {}
-        for omega in planar_omegas:
-            abs_omega = abs(omega)
-            found_group = False
-            for key in planar_freq_groups:
-                if np.isclose(abs_omega, key, rtol=1e-10):
-                    planar_freq_groups[key].append(omega)
-                    found_group = True
-                    break
-            if not found_group:
-                planar_freq_groups[abs_omega] = [omega]
-        
-        if len(planar_freq_groups) != 2:
-            raise RuntimeError(f"Expected 2 distinct planar frequency groups, got {len(planar_freq_groups)} groups with magnitudes {list(planar_freq_groups.keys())}")
-
-        planar_mags = sorted(planar_freq_groups.keys())
-        smaller_mag, larger_mag = planar_mags
-        
-
-        omega1 = larger_mag           # positive, expected > sqrt(1/2)
-        omega2 = -smaller_mag         # negative, expected < -sqrt(1/2)
+        omega1 = float(np.sqrt(0.5 * (1.0 + np.sqrt(disc))))  # positive, > sqrt(1/2)
+        omega2 = -float(np.sqrt(c)) / omega1                   # negative, omega1^2 * omega2^2 = c
+        omega_z = 1.0
 
         if not (omega1**2 > 0.5 and omega2**2 < 0.5):
             raise RuntimeError(f"Computed planar frequencies do not strictly satisfy the requested ordering: omega_1={omega1:.4f}, omega_2={omega2:.4f}.")
